@@ -184,6 +184,36 @@ func (l dsLeaf) intAt(keySuffix string) (int64, bool) {
 	return 0, false
 }
 
+// strEmpty: the abstract string is / is not the empty string in this world (known=false: not examined)
+func (l dsLeaf) strEmpty(keySuffix string) (isEmpty, known bool) {
+	for k, v := range l.w.pos {
+		key := k[:strings.LastIndex(k, "|")]
+		if normTemplate(key) != keySuffix {
+			continue
+		}
+		z := poolIndexStr(l.c.pools[key], "")
+		if z < 0 {
+			return false, false
+		}
+		return v == 2*z+1, true
+	}
+	return false, false
+}
+
+// hasStringField: the ecosystem's Version has a string field of that name
+func hasStringField(e *Eco, name string) bool {
+	st, ok := e.VerT.Underlying().(*types.Struct)
+	if !ok {
+		return false
+	}
+	for i := 0; i < st.NumFields(); i++ {
+		if st.Field(i).Name() == name && isStringType(st.Field(i).Type()) {
+			return true
+		}
+	}
+	return false
+}
+
 // negative: the world puts a numeric component of the parsed base below 0; components are parsed from
 // digit groups (C03 R-NUMPARSE), so no such base exists
 func (l dsLeaf) negative() bool {
@@ -491,6 +521,15 @@ func ruleDesugar(p *Prog, r *Report) {
 			if len(lowers) != 1 || !sp.lower(lowers[0]) {
 				bad = append(bad, fmt.Sprintf("lower bound %v is not the base\x00 [%s]", lowers, lf.desc))
 				continue
+			}
+			// the three numeric components alone are the base only when the base has no pre-release part:
+			// a lower bound written from them must come from a world that has looked at the pre-release
+			// field and found it empty (^1.2.3-beta.2 starts at 1.2.3-beta.2, not at 1.2.3)
+			if lowers[0] == ">= {V.major}.{V.minor}.{V.patch}" && hasStringField(e, "prerelease") {
+				if empty, known := lf.strEmpty("V.prerelease"); !known || !empty {
+					bad = append(bad, fmt.Sprintf("lower bound %v is written from the numeric components of the base without its pre-release part having been looked at: a base with a pre-release tag (and the pre-releases after it) falls below the bound\x00 [%s]", lowers, lf.desc))
+					continue
+				}
 			}
 			if fmt.Sprint(uppers) != fmt.Sprint(want) {
 				bad = append(bad, fmt.Sprintf("expands to %v, documented %v\x00 [%s]", uppers, want, lf.desc))
